@@ -11,7 +11,7 @@ import itertools
 from simprocesd.model import System, EventType
 from simprocesd.model.factory_floor import ActionScheduler
 
-from harness.util import pack
+from harness.util import pack, split_by_order
 
 PROPERTY = 'C18'
 T = 10 ** 5
@@ -60,8 +60,12 @@ def _subs(tier):
         pre = [' + '.join(f'd{i}' for i in range(L)) + ' >= 1', f'H < {periods} * (' + ' + '.join(f'd{i}' for i in range(L)) + ')']
         if len(ts) == 2:
             pre.append('t0 <= t1')
-        out.append({'name': f'L{L}-cyc{cyc}-{op}-{prio}', 'shape': {'L': L, 'cyc': cyc, 'ops': op, 'prio': prio},
-                    'params': params, 'pre': pre})
+        sub = {'name': f'L{L}-cyc{cyc}-{op}-{prio}', 'shape': {'L': L, 'cyc': cyc, 'ops': op, 'prio': prio},
+               'params': params, 'pre': pre}
+        if len(ts) == 2:      # two operation instants: case split by where they fall in the first period
+            out += split_by_order(sub, [('t0', 'd0'), ('t1', ' + '.join(f'd{i}' for i in range(L)))])
+        else:
+            out.append(sub)
     return out
 
 
